@@ -29,7 +29,7 @@ var ZZEntries = map[string]func([]int){
 	"HCTimeDec":     func(a []int) { HCTimeDec() },
 	"HCDateTimeDec": func(a []int) { HCDateTimeDec(a[0]) },
 	"HCDate":        func(a []int) { HCDate(a[0], a[1]) },
-	"HCDateTime":    func(a []int) { HCDateTime(a[0], a[1]) },
+	"HCDateTime":    func(a []int) { HCDateTime(a[0], a[1], a[2]) },
 	"HCTime":        func(a []int) { HCTime() },
 }
 
